@@ -590,3 +590,39 @@ CHECKS["C09"] = dict(
 )
 ENGINES.append(dict(name="fungible-lab", path="checks/c09_fungible.cpp", serves_properties=["C09"],
                     kind_free_text="compile-time trait matrix over all ordered type pairs + wire-compatibility runs for every true pair"))
+
+# ----------------------------------------------------------------------------------------------- C19
+c19 = B("c19", "checks/c19_threads.cpp", "gcc")
+c19_tsan = B("c19_tsan", "checks/c19_threads.cpp", "tsan")
+c19_asan = B("c19_asan", "checks/c19_threads.cpp", "asan")
+
+
+def jobs_c19(tier):
+    js = sharded(c19, 11, "--tier", tier) + [job(c19_tsan, "--tier", tier, "--free")]
+    if tier == "thorough":
+        js += sharded(c19_asan, 11, "--tier", "quick")
+    return js
+
+
+CHECKS["C19"] = dict(
+    engine="sched-lab", level="model_checking", jobs=jobs_c19,
+    level_text="stateless exploration under a cooperative scheduler: for every pair of six bodies (struct round trip and table "
+               "write/read through yielding reader/writer, Variant/Optional operations on elements whose constructors and "
+               "destructors are scheduling points, one RPC call on a private connection, two ThreadLocal scripts over shared "
+               "(T,Slot) pairs) incl. each body against itself, and for the 3-thread set {tlsA,tlsA,tlsB}, EVERY schedule with "
+               "at most 2 (3 thorough) preemptions is executed on real threads; after each execution every thread's "
+               "observation log must equal the log of the same body run alone (values are thread-specific, so a value from "
+               "another thread or slot, a lost first-initialisation or a torn element is visible) and the number of distinct "
+               "combined outcomes per set must be 1. A recorded schedule is replayed and must make the same choices",
+    level_note="yield points are harness-owned (every reader/writer primitive, element constructor/destructor, each ThreadLocal "
+               "script step); library state touched only between two adjacent points cannot be exposed by a cooperative "
+               "switch, so the same bodies also run free on 4 threads x 200 iterations under ThreadSanitizer (visibility "
+               "pass, sampling, not the deciding step); memory-model effects are outside the scheduler",
+    technique="stateless model checking: preemption-bounded exhaustive schedule exploration of the implementation (CHESS-style DFS)",
+    rule="states = complete executions (explored schedules); transitions = scheduling points executed; evaluations = schedules",
+    assumptions=R_ASSUME[1:] + ["schedules beyond the preemption bound are not explored"],
+    bounds=dict(quick="22 thread sets, <= 2 preemptions, all schedules", thorough="25 sets, <= 3 preemptions (2 for 3-thread sets); ASan build of the quick bound"),
+    floor=dict(schedules=dict(quick=5000, thorough=50000)),
+)
+ENGINES.append(dict(name="sched-lab", path="checks/c19_threads.cpp, harness/vsched.h", serves_properties=["C19"],
+                    kind_free_text="preemption-bounded cooperative scheduler over harness-owned yield points + free-running TSan pass"))
